@@ -84,14 +84,16 @@ Qed.
 
 (* ------------------------------------------------------------------ the `&` generator *)
 Lemma and_go_events : forall (P : mev -> Prop) r la lb ta tb,
-  (forall c p l, P (EUse r c p K_INT l)) -> P (EInc r) ->
+  (forall c p, P (EUse r c p K_INT la)) -> (forall c p, P (EUse r c p K_INT lb)) -> P (EInc r) ->
   forall xs ys apos bpos pre, Forall P pre ->
   Forall (fun el => Forall P (fst el)) (fst (and_go r la lb ta tb xs ys apos bpos pre))
   /\ Forall P (snd (and_go r la lb ta tb xs ys apos bpos pre)).
 Proof.
-  intros P r la lb ta tb HU HI.
-  assert (HO : forall b c p l, Forall P (opt_ev b (EUse r c p K_INT l))).
-  { intros [|] c p l; cbn; auto. }
+  intros P r la lb ta tb HUa HUb HI.
+  assert (HOa : forall b c p, Forall P (opt_ev b (EUse r c p K_INT la))).
+  { intros [|] c p; cbn; auto. }
+  assert (HOb : forall b c p, Forall P (opt_ev b (EUse r c p K_INT lb))).
+  { intros [|] c p; cbn; auto. }
   induction xs as [|[ca pa] xs IHx]; intros ys apos bpos pre Hpre.
   - cbn [and_go fst snd]. split; [constructor|]. rewrite !Forall_app.
     repeat split; auto; destruct ys as [|[cb pb] ys]; auto.
@@ -206,6 +208,58 @@ Proof.
   rewrite map_app, <- IH. cbn [fst snd]. destruct (lookup c (ref_off L e y)); reflexivity.
 Qed.
 
+(* ------------------------------------------------------------------ intersect rows of a level *)
+Lemma ltrace_uses : forall la evs a, Forall implicit evs ->
+  map (fun x : Z * Z * Z => (snd (fst x), snd x)) (ltrace a evs K_INT la) = uses la evs.
+Proof.
+  intros la evs. induction evs as [|e evs IH]; intros a H; auto. inversion H; subst.
+  cbn [ltrace]. rewrite map_app, IH by auto. unfold uses at 2. cbn [flat_map]. fold (uses la evs).
+  f_equal. destruct e; cbn in *; try contradiction; auto.
+  destruct ((kind =? K_INT) && (label =? la)); reflexivity.
+Qed.
+
+Lemma uses_skels : forall la i items fin,
+  Forall (fun it => it_post it = []) items ->
+  uses la (skels i items ++ fin) = uses la (flat_map it_pre items ++ fin).
+Proof.
+  intros la i items fin H. rewrite !uses_app. f_equal.
+  induction H as [|it items Hq H IH]; auto.
+  change (skels i (it :: items)) with (skel i it ++ skels i items). unfold skel. rewrite Hq.
+  cbn [flat_map]. rewrite !uses_app, IH. cbn. rewrite app_nil_r. reflexivity.
+Qed.
+
+Lemma touched_nth : forall m xs j ct, nth_error (touched m xs) j = Some ct -> nth_error xs j = Some ct.
+Proof.
+  intros m xs. induction xs as [|[c t] xs IH]; intros j ct H; cbn in *; [destruct j; discriminate|].
+  destruct m as [mm|].
+  - destruct (c <=? mm).
+    + destruct j; cbn in *; auto.
+    + destruct j; cbn in *; auto. destruct j; discriminate.
+  - destruct j; cbn in *; auto. destruct j; discriminate.
+Qed.
+
+Definition pos_ok (L : level) (e : env) (x : nat) : Prop :=
+  forall j ct, nth_error (ref_off L e x) j = Some ct -> pos_in L e x (fst ct) = Some (Z.of_nat j).
+
+Lemma addr_enum : forall (f : Z -> option Z) pt (l : fib) j0,
+  (forall j ct, nth_error l j = Some ct -> f (fst ct) = Some (j0 + Z.of_nat j)) ->
+  map (fun ct => addr pt (fst ct) (f (fst ct))) l
+  = map (fun jc : Z * (Z * tree) => pt ++ [fst (snd jc); fst jc]) (enumZ l j0).
+Proof.
+  intros f pt l. induction l as [|ct l IH]; intros j0 H; auto. cbn [map enumZ fst snd].
+  rewrite (H O ct eq_refl). unfold addr at 1. replace (j0 + Z.of_nat 0) with j0 by lia. f_equal.
+  apply IH. intros j ct' Hn. rewrite (H (S j) ct' Hn). f_equal. lia.
+Qed.
+
+Lemma lab_get_val : forall ls r v, memZ r (lb_reg ls) = true ->
+  (lookup_rm r (lb_cnt ls) = Some v \/ (lookup_rm r (lb_cnt ls) = None /\ v = 0)) ->
+  fst (lab_get ls r) = v /\ lookup_rm r (lb_cnt (snd (lab_get ls r))) = Some (v + 1)
+  /\ memZ r (lb_reg (snd (lab_get ls r))) = true.
+Proof.
+  intros ls r v H Hc. unfold lab_get. rewrite H. cbn [fst snd lb_cnt lb_reg].
+  rewrite lookup_cnt_set, Z.eqb_refl. destruct Hc as [-> | [-> ->]]; auto.
+Qed.
+
 Lemma enum_map : forall {A B} (f : A -> B) l j,
   enumZ (map f l) j = map (fun jc => (fst jc, f (snd jc))) (enumZ l j).
 Proof. induction l as [|a l IH]; intros j; cbn; auto. rewrite IH. reflexivity. Qed.
@@ -219,25 +273,31 @@ Proof.
   intros j Hj. rewrite lookup_cnt_set. destruct (Z.of_nat j =? Z.of_nat i) eqn:E; [lia|reflexivity].
 Qed.
 
-Lemma and_level_spec : forall n tr zshape nz i x y u zu sh lv' pt e z (body : body_t),
+Lemma and_level_spec : forall zs n tr zshape nz i x y u zu sh lv' pt e z (body : body_t),
   length pt = i -> labinv i z ->
   let L := {| l_pop := false; l_src := SAnd x y; l_ufmt := u; l_zufmt := zu; l_proj := None;
               l_shape := sh |} in
   ssorted_f (ref_off L e x) -> ssorted_f (ref_off L e y) ->
+  (tr (Z.of_nat i, K_INT, 0) = true \/ tr (Z.of_nat i, K_INT, 1) = true -> pos_ok L e x /\ pos_ok L e y) ->
   (forall c e' z', labinv (S i) z' -> labinv (S i) (snd (body c e' z'))) ->
   (forall c tx ty z', labinv (S i) z' -> In (c, (tx, ty)) (isect (ref_off L e x) (ref_off L e y)) ->
-     spec tr n (S i) lv' (pt ++ [c]) (set_nth y ty (set_nth x tx e))
+     spec zs tr n (S i) lv' (pt ++ [c]) (set_nth y ty (set_nth x tx e))
           (fst (body c (set_nth y ty (set_nth x tx e)) z'))) ->
-  spec tr n i (L :: lv') pt e (fst (run_level tr zshape nz i L body e z))
+  spec zs tr n i (L :: lv') pt e (fst (run_level tr zshape nz i L body e z))
   /\ labinv i (snd (run_level tr zshape nz i L body e z)).
 Proof.
-  intros n tr zshape nz i x y u zu sh lv' pt e z body Lpt Hz L Hsx Hsy Hbn Hbody.
+  intros zs n tr zshape nz i x y u zu sh lv' pt e z body Lpt Hz L Hsx Hsy Hpos Hbn Hbody.
   unfold run_level. cbn [l_pop l_src l_proj l_ufmt l_shape L fst snd].
-  destruct (lab_reg_inv i z Hz) as (R1 & R2 & R3 & _ & R5). rewrite R1.
+  destruct (lab_reg_inv i z Hz) as (R1 & R2 & R3 & R4 & R5). rewrite R1.
   set (r := Z.of_nat i) in *.
   set (ls1 := snd (lab_reg (th_lab z) r)) in *.
   cbn [src_labels src_stream fst snd].
   set (g1 := lab_get ls1 r). set (g2 := lab_get (snd g1) r).
+  assert (Hla : fst g1 = 0 /\ fst g2 = 1).
+  { destruct (lab_get_val ls1 r 0 R3) as (A1 & A2 & A3).
+    { destruct R4 as [R4|R4]; [right|left]; auto. }
+    destruct (lab_get_val (snd g1) r 1 A3 (or_introl A2)) as (B1 & _). auto. }
+  destruct Hla as [Hla Hlb].
   set (xs := offered_f u sh (sub e x)) in *. set (ys := offered_f u sh (sub e y)) in *.
   change (ref_off L e x) with xs in *. change (ref_off L e y) with ys in *.
   set (ag := and_go r (fst g1) (fst g2) (tr (r, K_INT, fst g1)) (tr (r, K_INT, fst g2)) xs ys 0 0 []).
@@ -260,6 +320,10 @@ Proof.
   assert (HE : forall P : mev -> Prop, (forall c p l, P (EUse r c p K_INT l)) -> P (EInc r) ->
              Forall (fun el => Forall P (fst el)) (fst ag) /\ Forall P (snd ag)).
   { intros P H1 H2. apply and_go_events; auto. }
+  assert (HE2 : forall P : mev -> Prop, (forall c p, P (EUse r c p K_INT (fst g1))) ->
+             (forall c p, P (EUse r c p K_INT (fst g2))) -> P (EInc r) ->
+             Forall (fun el => Forall P (fst el)) (fst ag) /\ Forall P (snd ag)).
+  { intros P H1 H2 H3. apply and_go_events; auto. }
   assert (Hskel : forall P : mev -> Prop, (forall c p l, P (EUse r c p K_INT l)) -> P (EInc r) ->
              (forall c j, P (EUse r c j K_ITER 0)) ->
              Forall (fun it => Forall P (it_pre it) /\ Forall P (it_post it)) items
@@ -341,7 +405,54 @@ Proof.
             unfold els. rewrite !map_map. reflexivity. }
           rewrite Hk, enum_map, !map_map. apply map_ext. intros [j0 [pre [c0 e0]]]. reflexivity. }
         { rewrite NK; [reflexivity|]. unfold K_ITER, K_INT. lia. }
-      * destruct (kind =? K_INT) eqn:EI; [lia|]. rewrite NK by (unfold K_ITER, K_INT in *; lia).
-        cbn [map]. destruct (kind =? K_POP); [reflexivity|].
-        destruct (kind =? K_RD); [reflexivity|]. destruct (kind =? K_WR); reflexivity.
+      * destruct (kind =? K_INT) eqn:EI.
+        2:{ rewrite NK by (unfold K_ITER, K_INT in *; lia).
+            cbn [map]. destruct (kind =? K_POP); [reflexivity|].
+            destruct (kind =? K_RD); [reflexivity|]. destruct (kind =? K_WR); reflexivity. }
+        apply Z.eqb_eq in EI. subst kind.
+        assert (Htr : tr (r, K_INT, label) = true).
+        { apply andb_true_iff in Hsc. destruct Hsc as [_ Hsc]. cbn in Hsc. exact Hsc. }
+        assert (Hpo : forall la0, uses la0 (skels i items ++ snd ag) = uses la0 (all_events ag)).
+        { intros la0. rewrite uses_skels.
+          - unfold all_events. f_equal. f_equal.
+            clear - F1. unfold els in F1. revert F1. generalize (fst ag) as l. generalize items as its.
+            intros its l F1. remember (map _ l) as ml eqn:Em. revert l Em.
+            induction F1 as [|it el its ml' (A & _) F1 IH]; intros l Em; destruct l as [|pc l]; try discriminate; auto.
+            inversion Em; subst. cbn [flat_map]. rewrite A, (IH l eq_refl). reflexivity.
+          - clear - F1. induction F1 as [|it el its ml' (_ & B & _) F1 IH]; constructor; auto. }
+        transitivity (map (fun cp : Z * Z => pt ++ [fst cp; snd cp])
+                          (map (fun x0 : Z * Z * Z => (snd (fst x0), snd x0))
+                               (ltrace (0, None) (skels i items ++ snd ag) K_INT label))).
+        { rewrite map_map. reflexivity. }
+        rewrite (ltrace_uses label _ (0, None) M2), Hpo.
+        unfold ag. rewrite Hla, Hlb.
+        destruct (label =? 0) eqn:E0; [|destruct (label =? 0 + 1) eqn:E1].
+        -- apply Z.eqb_eq in E0. subst label. rewrite Htr.
+           rewrite (and_go_a_rows r 0 1 (tr (r, K_INT, 1)) ltac:(lia) xs Hsx ys Hsy 0 0 []).
+           cbn [uses flat_map app]. unfold rows_of. rewrite map_map.
+           destruct (Hpos (or_introl Htr)) as [Px _].
+           change (ref_off L e x) with xs. change (ref_off L e y) with ys. symmetry.
+           rewrite (addr_enum (pos_in L e x) pt (touched (last_coord ys) xs) 0);
+             [apply map_ext; intros [j0 [c0 t0]]; reflexivity|].
+           intros j ct Hn. rewrite (Px j ct); [f_equal; lia|]. eapply touched_nth; eauto.
+        -- apply Z.eqb_eq in E1. change (0 + 1) with 1 in E1. subst label. rewrite Htr.
+           rewrite (and_go_b_rows r 0 1 (tr (r, K_INT, 0)) ltac:(lia) xs Hsx ys Hsy 0 0 []).
+           cbn [uses flat_map app]. unfold rows_of. rewrite map_map.
+           destruct (Hpos (or_intror Htr)) as [_ Py].
+           change (ref_off L e x) with xs. change (ref_off L e y) with ys. symmetry.
+           rewrite (addr_enum (pos_in L e y) pt (touched (last_coord xs) ys) 0);
+             [apply map_ext; intros [j0 [c0 t0]]; reflexivity|].
+           intros j ct Hn. rewrite (Py j ct); [f_equal; lia|]. eapply touched_nth; eauto.
+        -- assert (Hn0 : uses label (all_events (and_go r 0 1 (tr (r, K_INT, 0)) (tr (r, K_INT, 1)) xs ys 0 0 [])) = []).
+           { destruct (and_go_events (fun ev => uses label [ev] = []) r 0 1 (tr (r, K_INT, 0)) (tr (r, K_INT, 1)))
+               with (xs := xs) (ys := ys) (apos := 0) (bpos := 0) (pre := @nil mev) as [N1 N2]; auto.
+             - intros c p. unfold uses. cbn [flat_map app]. rewrite (Z.eqb_sym 0 label), E0, andb_false_r. reflexivity.
+             - intros c p. unfold uses. cbn [flat_map app]. change (0 + 1) with 1 in E1.
+               rewrite (Z.eqb_sym 1 label), E1, andb_false_r. reflexivity.
+             - unfold all_events. rewrite uses_app.
+               assert (Hnil : forall l, Forall (fun ev => uses label [ev] = []) l -> uses label l = []).
+               { induction 1 as [|ev l Hev Hl IHl]; auto. change (ev :: l) with ([ev] ++ l). rewrite uses_app, Hev, IHl. reflexivity. }
+               rewrite (Hnil _ N2), app_nil_r.
+               induction N1 as [|el l Hel Hl IHl]; auto. cbn [flat_map]. rewrite uses_app, (Hnil _ Hel), IHl. reflexivity. }
+           rewrite Hn0. reflexivity.
 Qed.
